@@ -383,6 +383,69 @@ fn unsafe_sites(out: &mut String) {
     writeln!(out, "def nGeneratedFns : Nat := {}\ndef nUnsafeFns : Nat := {}\n\nend Soa.Extracted", nfn, nunsafe_fn).unwrap();
 }
 
+
+// ---------- soa_zip! / soa_zip_impl! rules (src/lib.rs) ----------
+/// token stream printed one token per word (independent of source spacing)
+fn flat_tokens(ts: proc_macro2::TokenStream, out: &mut Vec<String>) {
+    for t in ts {
+        match t {
+            proc_macro2::TokenTree::Group(g) => {
+                let (o, c) = match g.delimiter() {
+                    proc_macro2::Delimiter::Parenthesis => ("(", ")"),
+                    proc_macro2::Delimiter::Brace => ("{", "}"),
+                    proc_macro2::Delimiter::Bracket => ("[", "]"),
+                    proc_macro2::Delimiter::None => ("", ""),
+                };
+                if !o.is_empty() { out.push(o.into()); }
+                flat_tokens(g.stream(), out);
+                if !c.is_empty() { out.push(c.into()); }
+            }
+            other => out.push(other.to_string()),
+        }
+    }
+}
+fn flat(ts: proc_macro2::TokenStream) -> String { let mut v = vec![]; flat_tokens(ts, &mut v); v.join(" ") }
+fn macro_rules_of(file: &syn::File, name: &str) -> Vec<(String, String)> {
+    fn find<'a>(items: &'a [Item], name: &str) -> Option<&'a syn::ItemMacro> {
+        for it in items {
+            match it {
+                Item::Macro(m) if m.ident.as_ref().map(|i| i == name).unwrap_or(false) => return Some(m),
+                Item::Mod(md) => if let Some((_, inner)) = &md.content { if let Some(m) = find(inner, name) { return Some(m); } },
+                _ => {}
+            }
+        }
+        None
+    }
+    let m = find(&file.items, name).unwrap_or_else(|| panic!("macro {} not found in src/lib.rs", name));
+    let toks: Vec<proc_macro2::TokenTree> = m.mac.tokens.clone().into_iter().collect();
+    let mut rules = vec![];
+    let mut i = 0;
+    while i < toks.len() {
+        // (matcher) => {transcriber} ;
+        let lhs = match &toks[i] { proc_macro2::TokenTree::Group(g) => flat(g.stream()), t => panic!("unexpected token {} in macro {}", t, name) };
+        let rhs = match &toks[i + 3] { proc_macro2::TokenTree::Group(g) => flat(g.stream()), t => panic!("unexpected token {} in macro {}", t, name) };
+        rules.push((lhs, rhs));
+        i += 4;
+        if i < toks.len() { if let proc_macro2::TokenTree::Punct(p) = &toks[i] { if p.as_char() == ';' { i += 1; } } }
+    }
+    rules
+}
+fn zip_macro(out: &mut String) {
+    use std::fmt::Write;
+    let src = std::fs::read_to_string("/repo/src/lib.rs").expect("read /repo/src/lib.rs");
+    let file: syn::File = syn::parse_file(&src).expect("src/lib.rs parses");
+    writeln!(out, "-- generated by /verif/extract from /repo/src/lib.rs; do not edit").unwrap();
+    writeln!(out, "namespace Soa.Extracted\n").unwrap();
+    for (lean, name) in [("zipEntry", "soa_zip"), ("zipRules", "soa_zip_impl")] {
+        let rules = macro_rules_of(&file, name);
+        writeln!(out, "/-- the rules of `{}!` as (matcher, transcriber) token streams, in source order -/", name).unwrap();
+        writeln!(out, "def {} : List (String × String) := [", lean).unwrap();
+        let body: Vec<String> = rules.iter().map(|(l, r)| format!("  ({},\n   {})", lean_str(l), lean_str(r))).collect();
+        writeln!(out, "{}]\n", body.join(",\n")).unwrap();
+    }
+    writeln!(out, "end Soa.Extracted").unwrap();
+}
+
 /// write only when the content changed, so that `lake build` re-checks nothing on an unchanged tree
 fn write_if_changed(path: &str, content: &str) {
     if std::fs::read_to_string(path).map(|old| old == content).unwrap_or(false) { return; }
@@ -402,4 +465,7 @@ fn main() {
     let mut u = String::new();
     unsafe_sites(&mut u);
     write_if_changed(&format!("{}/Unsafe.lean", outdir), &u);
+    let mut z = String::new();
+    zip_macro(&mut z);
+    write_if_changed(&format!("{}/ZipMacro.lean", outdir), &z);
 }
